@@ -62,6 +62,7 @@ def num_ok(cv: dict, x, y) -> bool:
 
 
 # texts that are pieces or extensions of a unit the library knows: not units, so nothing may change
+NSEQ = [0]
 NEAR_MISSES = [{"ANGLE": ""}, {"ANGLE": "d"}, {"ANGLE": "de"}, {"ANGLE": "eg"}, {"ANGLE": "degrees"}, {"SPEED": ""}, {"SPEED": "k"},
                {"SPEED": "kt"}, {"SPEED": "ts"}, {"SPEED": "knots"}, {"TEMPERATURE": ""}, {"TEMPERATURE": "cc"}, {"TEMPERATURE": "fahrenheit"},
                {"PRESSURE": ""}, {"PRESSURE": "ba"}, {"PRESSURE": "ps"}, {"PRESSURE": "bars"}, {"PRESSURE": "psig"}]
@@ -154,16 +155,35 @@ def bind(chk: Check, tier: str, seed: int):
             # the same preferences in a decoder that also writes a dump file: of everything, or of other PGNs only
             if tag == "base":
                 plan += [(pm, how) for pm in rel[::2] for how in ("dump-all", "dump-other")]
+                # ... and through the frame routes (EByte packets, fast-packet messages frame by frame; plain text as the
+                # Actisense and Yacht Devices routes deliver it)
+                plan += [(pm, how) for pm in rel[1::2] for how in (("frames",) if d["fast"] in ("fast", "single") and (d["fast"] == "fast" or len(payload) <= 8) else ())]
             for pm, how in plan:
                 key = json.dumps(pm, sort_keys=True) + how
                 if key not in decs:
-                    kw = {} if not how else dict(dump_to_file=str(wd / f"dump-{len(decs)}.jsonl"),
-                                                 dump_pgns=[] if how == "dump-all" else [59904, "isoAcknowledgement"])
+                    kw = {} if how in ("", "frames") else dict(dump_to_file=str(wd / f"dump-{len(decs)}.jsonl"),
+                                                               dump_pgns=[] if how == "dump-all" else [59904, "isoAcknowledgement"])
                     decs[key] = NMEA2000Decoder(preferred_units={PhysicalQuantities[k]: v for k, v in pm.items()}, **kw)
                     n_cross_maps.add(key)
                 dec = decs[key]
                 try:
-                    m1 = dec.decode_basic_string(s, already_combined=True)
+                    if how == "frames":
+                        from .. import fastpacket as fp_
+                        NSEQ[0] = (NSEQ[0] + 1) % 8
+                        if d["fast"] == "single":
+                            frs = [bytes(payload)]
+                        else:
+                            frs, pos_, i_ = [], 0, 0
+                            while pos_ < len(payload) or i_ == 0:
+                                cap_ = 6 if i_ == 0 else 7
+                                frs.append(fp_.can_data(NSEQ[0], i_, len(payload), list(payload[pos_:pos_ + cap_])))
+                                pos_ += cap_
+                                i_ += 1
+                        m1 = None
+                        for fr_ in frs:
+                            m1 = dec.decode_tcp(fp_.ebyte_packet(d["pgn"], 5, 255, 3, fr_))
+                    else:
+                        m1 = dec.decode_basic_string(s, already_combined=True)
                 except Exception as e:     # noqa: BLE001
                     chk.violation(f"conversion-raised/{d['id']}", f"{d['id']} {bytes(payload).hex()} with {pm}: {type(e).__name__}: {e}")
                     continue
